@@ -429,10 +429,37 @@ class Gen(object):
             # specialization/alternate/mention/membership factories take no id/attributes
             if idspec is not None or extra:
                 via = "new_record"
+        if self.p.get("rdf_safe"):
+            idspec, formal, extra, via = self._rdf_safe(ch, kind, idspec, formal, extra, via)
         rh = self.fresh("r")
         self.recs[ch].append((rh, kind, idspec is not None))
         self.formals[rh] = (ch, kind, dict(formal))
         return ["rec", rh, ch, kind, idspec, formal, extra, via, form]
+
+    def _rdf_safe(self, ch, kind, idspec, formal, extra, via):
+        """Bias towards C07's PROV-O-expressible space (the oracle's predicate decides)."""
+        tname, formals, is_el = pools.KINDS[kind]
+        if not is_el:
+            for f in formals[:2]:
+                if f not in formal:
+                    formal[f] = self.formal_value(ch, f, kind)
+            # relations are never typed with the name of a PROV class
+            extra = [[a, v] for a, v in extra
+                     if not (a[0] == "qn" and a[1] == "prov" and a[3] == "type" and v[0] == "qn" and v[1] == "prov")]
+            if kind in ("specialization", "alternate", "membership"):
+                idspec, extra = None, []
+            if idspec is None and kind in ("attribution", "communication", "delegation", "influence"):
+                extra = []
+                for f in formals[2:]:
+                    formal.pop(f, None)
+        if idspec is not None:
+            # one kind per identifier (per container)
+            key = (ch, repr(idspec))
+            seen = self.__dict__.setdefault("_id_kind", {})
+            if seen.setdefault(key, kind) != kind:
+                idspec = ["nsobj"] + list(self.name_spec(ch, {"nsobj": 1})[1:3]) + ["%s_%s%d" % (self.local(), kind[:2], self.n)] \
+                    if self.scope_prefixes(ch, self.ns_obj) else idspec
+        return idspec, formal, extra, via
 
     # ------------------------------------------------------------ operations
     def next_op(self, world=None):
